@@ -894,3 +894,78 @@ func TestROC(t *testing.T) {
 		}
 	}, checkROC)
 }
+
+// ---- KolmogorovSmirnov on samples that contain infinities ------------------------------
+//
+// (added after seeded change C10-16: a run of equal values detected through `gap != 0`, which
+// is NaN for a run of the same infinity.) Sorted samples with repeated -Inf / +Inf are in the
+// documented domain (the only requirement is sortedness) and the empirical CDFs, hence their
+// sup-distance, are well defined; the oracle is the same brute-force evaluation as above.
+var ksInfVals = []float64{math.Inf(-1), -2, -1, 0, 1, 2, math.Inf(1)}
+
+type ksInfCase struct {
+	KX, KY []int
+	WX, WY []int `json:",omitempty"`
+}
+
+func checkKSInf(c ksInfCase) *vk.Failure {
+	mk := func(k, w []int) ([]float64, []float64) {
+		ks := append([]int(nil), k...)
+		sort.Ints(ks)
+		x := make([]float64, len(ks))
+		for i, v := range ks {
+			x[i] = ksInfVals[v]
+		}
+		if len(w) != len(k) {
+			return x, nil
+		}
+		ws := make([]float64, len(w))
+		for i, v := range w {
+			ws[i] = float64(v)
+		}
+		return x, ws
+	}
+	x, wx := mk(c.KX, c.WX)
+	y, wy := mk(c.KY, c.WY)
+	rep := func(v []float64) bool {
+		for i := 1; i < len(v); i++ {
+			if math.IsInf(v[i], 0) && v[i] == v[i-1] {
+				return true
+			}
+		}
+		return false
+	}
+	if rep(x) || rep(y) {
+		vk.NonTrivial("ks-inf", c.KX, c.KY, c.WX, c.WY)
+	}
+	vk.Sample("ks-inf", c)
+	ctx := fmt.Sprintf("x=%v wx=%v y=%v wy=%v", x, wx, y, wy)
+	var got float64
+	if f := vk.MustReturn("ks-inf-total", func() { got = stat.KolmogorovSmirnov(x, wx, y, wy) }); f != nil {
+		f.Msg += " " + ctx
+		return f
+	}
+	want := ksRef(x, wx, y, wy)
+	tol := 4 * float64(len(x)+len(y)+4) * u
+	if f := failClose("ks-inf", got, want, tol, ctx); f != nil {
+		return f
+	}
+	return failClose("ks-inf-symmetry", stat.KolmogorovSmirnov(y, wy, x, wx), got, tol, ctx)
+}
+
+func TestKSInf(t *testing.T) {
+	vk.Run(t, "ks-inf", vk.Opts{Quick: 5000, Thorough: 100000, NoCrumb: true}, func(t *rapid.T) ksInfCase {
+		idx := rapid.SampledFrom([]int{0, 0, 1, 2, 3, 4, 5, 6, 6})
+		c := ksInfCase{
+			KX: rapid.SliceOfN(idx, 1, 7).Draw(t, "kx"),
+			KY: rapid.SliceOfN(idx, 1, 7).Draw(t, "ky"),
+		}
+		if rapid.Bool().Draw(t, "wx") {
+			c.WX = rapid.SliceOfN(rapid.IntRange(1, 3), len(c.KX), len(c.KX)).Draw(t, "wxv")
+		}
+		if rapid.Bool().Draw(t, "wy") {
+			c.WY = rapid.SliceOfN(rapid.IntRange(1, 3), len(c.KY), len(c.KY)).Draw(t, "wyv")
+		}
+		return c
+	}, checkKSInf)
+}
